@@ -4,6 +4,11 @@ seeded/*/meta.json and seeded/RESULTS.md."""
 import json, glob, os, re
 
 NOTES = {
+ "C03-8": "missed at first: a name with an administrator and the row 'sub-name for the parent's owner, signed by the administrator alone' added to C03; the same calls added to C11",
+ "C09-7": "missed at first (needs two owners without an account record released by one tick): whole-balance locks of two owners added",
+ "C10-8": "missed at first (needs a receiver that transfers the name on from inside onNEP11Payment): forwarding receiver contract added",
+ "C11-7": "missed at first (needs three registered levels, the middle one expiring first): exploration nns-auth-midlevel-expiry added",
+ "C15-8": "missed at first (the difference sits in the update hook): the upgrade grid is run once to the sources and once to the shipped executable",
  "C08-7": "missed at first (needs count 256 and more than 128 epochs): long linear histories added (tick^p, resize, tick^300) - they also exposed the count > 256 defect fixed in f20fb53",
  "C16-11": "missed at first: ballot lists with several entries, the live one not last",
  "C17-8": "missed at first (needs three pending ballots): the timing exploration votes for three ids",
